@@ -285,6 +285,8 @@ func checkC08() *checkDef {
 				{Pkg: "./proxy", Scenario: "proxy/tunnel-relay", Params: map[string]any{}},
 				{Pkg: "./proxy", Scenario: "proxy/range", Params: map[string]any{"backend": "memory"}},
 				{Pkg: "./proxy", Scenario: "proxy/range", Params: map[string]any{"backend": "file"}},
+				// with net/http's own Transport between proxy and origin (what it adds, strips or decodes is judged too)
+				{Pkg: "./proxy", Scenario: "proxy/wire", Params: map[string]any{}, Workers: 1},
 			}
 		},
 	}
@@ -763,6 +765,7 @@ func checkC01() *checkDef {
 				{Pkg: "./proxy", Scenario: "proxy/reval", Params: map[string]any{"backend": "file", "depth": 3}},
 				// sequential operation histories: the handle returned by every store and read is read back
 				{Pkg: "./cache", Scenario: "cache/seq", Params: seqHistories(4)},
+				{Pkg: "./proxy", Scenario: "proxy/wire", Params: map[string]any{}, Workers: 1},
 			}
 		},
 	}
